@@ -94,6 +94,7 @@ func Run(cfg hx.Config) error {
 		"(truncation at structural boundaries, field-targeted edits of sizes, counts, offsets, types, magics, page links; byte flips; splices). " +
 		"An op is non-trivial when the real reader got past its first validity check (for tar: read at least two blocks or reported a segment)."
 	h.corpus()
+	h.knownWitnesses()
 	h.pnumStream()
 	h.segStream()
 	h.rpmHdrStream()
